@@ -14,7 +14,7 @@ pub use crate::graph::{
 };
 pub use crate::hash::{explain_hash_build, hash_build, BuildHash};
 pub use crate::load::{read as load_read, State as LoadState};
-pub use crate::process::Termination;
+pub use crate::process::{run_command, Termination};
 pub use crate::progress::Progress;
 pub use crate::progress_fancy::verif_hooks::{progress_bar, task_message, truncate};
 pub use crate::run::verif_build;
